@@ -61,6 +61,7 @@ func writeEvidence(vd, prop, tier string, seed int, cfg *PropCfg, results []*FnR
 	vd = outBase()
 	os.MkdirAll(filepath.Join(vd, "evidence"), 0o755)
 	nOb, nDis := 0, 0
+	var boundedWitness []string
 	byBackend := map[string]int{}
 	var solverTime, maxTime float64
 	var samples []interface{}
@@ -72,6 +73,11 @@ func writeEvidence(vd, prop, tier string, seed int, cfg *PropCfg, results []*FnR
 	}
 	for _, o := range obs {
 		if knownSet[o.Name] {
+			continue
+		}
+		if o.Kind == "assumed-contract" && o.Status == "discharged" {
+			// a bounded witness that did not refute an assumed library contract: recorded, never counted as proved
+			boundedWitness = append(boundedWitness, o.Name+": "+o.Clause)
 			continue
 		}
 		nOb++
@@ -149,7 +155,7 @@ func writeEvidence(vd, prop, tier string, seed int, cfg *PropCfg, results []*FnR
 		"dropped_by_extraction":    []string{"recover blocks", "goroutine bodies at `go`", "channel operations (functions containing them are outside the subset)", "machine integer width", "slice capacity aliasing"},
 	}
 	if cfg != nil {
-		cov["bounded_standins"] = cfg.Bounded
+		cov["bounded_standins"] = append(append([]string{}, cfg.Bounded...), boundedWitness...)
 	}
 	if auditRecords != nil {
 		cov["assumption_audits_bounded"] = auditRecords
